@@ -15,7 +15,7 @@ use refimpl as r;
 use refimpl::{Mode, Poly, Q};
 use serde_json::{json, Value};
 
-const RULE: &str = "the crate's own pipelines are replayed through verif_hooks exactly as ml_dsa.rs composes them and compared with the schoolbook negacyclic product in i128: (a) c*x = inv_ntt(mont_reduce(ntt(c) . to_mont(ntt(x)))) for tau-sparse +-1 challenges (all three tau) and x in [-eta,eta], [-4095,4096], t1*2^13; (b) A*v = inv_ntt(mat_vec_mul(A_hat, ntt(v))) for v in [-gamma1+1,gamma1] and [-eta,eta] at each (k,l); (c) verify's A*z - c*t1*2^d. Inputs: all 256 basis polynomials x scalars {1,-1,max,-max}, all-max, all-min, alternating, seeded random sign patterns of extremal magnitude, random in-range vectors, inverse-NTT inputs that are constant / two-valued over all 256 slots for every value where a reduction changes behaviour in the call-site range |x| < 8q (multiples of 2^23 and of q, +-2, powers of two, a seeded stride), mat_vec_mul with arbitrary (not ExpandA-derived) all-equal matrix and vector slots, and sparse-coset adversarial rows (fixtures for ML-DSA-65/87, fresh search in thorough) which are also turned into FIPS-valid signatures and put through verify() against the reference. Violation = overflow-check panic, result not congruent to the schoolbook product, or inverse-NTT output outside [0,q). Evidence reports the largest |sum of inverse-NTT inputs| reached as a fraction of 2^31. Non-trivial = distinct input vectors per pipeline shape.";
+const RULE: &str = "the crate's own pipelines are replayed through verif_hooks exactly as ml_dsa.rs composes them and compared with the schoolbook negacyclic product in i128: (a) c*x = inv_ntt(mont_reduce(ntt(c) . to_mont(ntt(x)))) for tau-sparse +-1 challenges (all three tau) and x in [-eta,eta], [-4095,4096], t1*2^13; (b) A*v = inv_ntt(mat_vec_mul(A_hat, ntt(v))) for v in [-gamma1+1,gamma1] and [-eta,eta] at each (k,l); (c) verify's A*z - c*t1*2^d. Inputs: all 256 basis polynomials x scalars {1,-1,max,-max}, all-max, all-min, alternating, seeded random sign patterns of extremal magnitude, random in-range vectors, inverse-NTT inputs that are constant / two-valued over all 256 slots for every value where a reduction changes behaviour in the call-site range |x| < 8q (multiples of 2^23 and of q, +-2, powers of two, a seeded stride), mat_vec_mul with arbitrary (not ExpandA-derived) all-equal matrix and vector slots, response polynomials found by a black-box layer-by-layer maximisation of the forward NTT's slot-0 magnitude through the real hook (must stay inside to_mont's input range), and sparse-coset adversarial rows (fixtures for ML-DSA-65/87, fresh search in thorough) which are also turned into FIPS-valid signatures and put through verify() against the reference. Violation = overflow-check panic, result not congruent to the schoolbook product, or inverse-NTT output outside [0,q). Evidence reports the largest |sum of inverse-NTT inputs| reached as a fraction of 2^31. Non-trivial = distinct input vectors per pipeline shape.";
 
 pub fn run(ctx: &Ctx) -> StageOut {
     let mut acc = Acc::new();
@@ -350,6 +350,73 @@ fn run_set<S: PS>(ctx: &Ctx) -> Acc {
         });
         for a in accs {
             acc.merge(a);
+        }
+    }
+    // ---- black-box maximisation of the forward NTT's output magnitude ------------------------------------
+    // Output slot 0 is z[0] plus one Montgomery product per layer, and with z supported on
+    // {0, 128, 64, 32, 16, 8, 4, 2, 1} the product of layer `len` depends only on z[len]. Scanning z[len]
+    // over the allowed box through the real ntt hook finds, layer by layer, the value that makes the code's
+    // own (unreduced) term largest / smallest; the combination is an in-range response polynomial that drives
+    // slot 0 to the extreme the implementation can reach. It must stay inside to_mont's input range and the
+    // whole pipeline must still equal the schoolbook product.
+    {
+        let bound = p.gamma1 - p.beta - 1;
+        let n_scan = ctx.budget(40_000, 1_000_000) as i64;
+        let lens = [128usize, 64, 32, 16, 8, 4, 2, 1];
+        for sign in [1i64, -1] {
+            let picks = par_map(lens.len(), |li| {
+                let len = lens[li];
+                let mut g = Prng::derive(ctx.seed, &format!("c18-max-{}-{len}", p.name), sign as u64 & 1);
+                let mut best = (i64::MIN, 0i64);
+                let stride = (2 * bound / n_scan).max(1);
+                let mut v = -bound + g.below(stride as u64) as i64;
+                while v <= bound {
+                    let mut z: P = [0; 256];
+                    z[len] = v as i32;
+                    if let Ok(out) = guarded(|| hk::ntt::<1>(&[z])[0][0]) {
+                        let val = sign * i64::from(out);
+                        if val > best.0 {
+                            best = (val, v);
+                        }
+                    }
+                    v += stride;
+                }
+                best
+            });
+            let mut z: Poly = r::ZERO;
+            z[0] = sign * bound;
+            let mut predicted = sign * bound;
+            for (li, &(val, v)) in picks.iter().enumerate() {
+                z[lens[li]] = v;
+                predicted += sign * val;
+            }
+            acc.eval();
+            acc.maxi("max_forward_ntt_slot0_magnitude", predicted.abs());
+            acc.maxi("max_forward_ntt_slot0_permille_of_to_mont_limit", predicted.abs() * 1000 / 67_058_539);
+            let replay = || json!({"kind":"c18-ntt-max","set":S::SET,"z":z.to_vec(),"sign":sign});
+            // the transform of the combined polynomial, its to_mont, and the product with a random matrix row
+            let zi = to_i32(&z);
+            match guarded(|| { let h = hk::ntt::<1>(&[zi]); let m = hk::to_mont::<1>(&h); (h[0], m[0]) }) {
+                Err(pi) => panic_violation(&mut acc, "C18", "ntt/to_mont", "ntt-output-maximised", &pi, replay()),
+                Ok((h, m)) => {
+                    let want = r::ntt(&z);
+                    let two32 = (1i64 << 32) % Q;
+                    if let Some(n) = (0..256).find(|&n| i64::from(h[n]).rem_euclid(Q) != want[n] || i64::from(h[n]).abs() >= 67_058_539 || i64::from(m[n]).rem_euclid(Q) != want[n] * two32 % Q) {
+                        acc.violation(&format!("C18|ntt-wrong|ntt-output-maximised|{}", p.name), format!("forward NTT / to_mont wrong or outside to_mont's input range at slot {n}: ntt {} mont {} want {} (slot 0 magnitude {})", h[n], m[n], want[n], h[0]), replay());
+                    } else {
+                        acc.count("ok_ntt-output-maximised", 1);
+                        acc.nontrivial(digest64(&[&[S::SET as u8], b"nttmax", &predicted.to_le_bytes()]));
+                    }
+                }
+            }
+            // full A*z with z in every column, through the real pipeline
+            let mut g = Prng::derive(ctx.seed, &format!("c18-max-av-{}", p.name), 0);
+            let rho: [u8; 32] = g.arr32();
+            let a_hat_ref = r::expand_a(p, &rho);
+            let a_hat: Vec<Vec<P>> = a_hat_ref.iter().map(|row| v_to_i32(row)).collect();
+            let a_co = a_coeff(&a_hat_ref);
+            let v: Vec<Poly> = vec![z; p.l];
+            shape_av::<S>(&mut acc, "Av-ntt-output-maximised", &a_hat, &a_co, &v, None);
         }
     }
     // ---- mat_vec_mul with arbitrary (not ExpandA-derived) matrix entries: all slots equal ---------------
